@@ -7,7 +7,7 @@
    theorems hold for ALL traces, i.e. also with other clients enqueueing during a wait.
    [FunExt] (extensionality of the functions bytes -> A the storage state consists of) is an explicit
    premise of the three theorems that compare storage states; nothing is assumed as an axiom. *)
-From Verif Require Import Bytes Codec StorageOutbox StorageOutboxProofs.
+From Verif Require Import Bytes Codec StorageOutbox StorageOutboxProofs StorageOutboxOwners StorageOutboxOwnersProofs.
 
 (* every operation that completes — a read, or a write-through (conditional / versioned) write —
    returns exactly what the same operation returns on a plain storage to which all writes
@@ -118,6 +118,58 @@ Theorem C21_drainable_partial : forall UK UB s,
 Proof. exact drains_when_replays_succeed. Qed.
 Print Assumptions C21_drainable_partial.
 
+Definition ex_o0 : popts := {| o_tags := []; o_meta := None; o_class := None; o_ifnone := false; o_ifmatch := None |}.
+(* ---- several claim owners on one outbox id / database (Model/StorageOutboxOwners.v) ----
+   Interleavings: any list of client writes routed to the outbox and of the steps Claim / Replay /
+   Finalize / Heartbeat / Crash of any number of owners, and clock ticks (lease expiry).
+   Full strength: for EVERY interleaving the drained inner storage is the sequential fold of the
+   accepted writes (nobody replays entry n+1 while entry n is pending, nothing is replayed twice). *)
+Definition C21_fifo_across_owners_full : Prop := forall lease UK tr,
+  m_queue (fst (run_m lease UK minit tr)) = [] ->
+  m_inner (fst (run_m lease UK minit tr)) = apps UK init_inner (m_accepted lease UK minit tr).
+
+(* refuted on the faithful model, exactly like C18: owner 0 claims put(k,1) and stalls before its inner
+   PutObject; its lease expires; owner 1 takes the entry over, replays and finalizes it and the later
+   put(k,2); owner 0's PutObject then completes (the replay is not fenced by the lease): the drained
+   inner storage holds the OLDER value *)
+Definition ex_p (c : N) : call := CPut B"b" B"k" c None ex_o0.
+Definition c21_owner_witness : list mstep :=
+  [MCall (CCreate B"b"); MClaim 0; MReplay 0; MFinalize 0; MCall (ex_p 1); MCall (ex_p 2);
+   MClaim 0; MTick 2; MClaim 1; MReplay 1; MFinalize 1; MClaim 1; MReplay 1; MFinalize 1; MReplay 0].
+Theorem C21_fifo_across_owners_full_refuted : ~ C21_fifo_across_owners_full.
+Proof.
+  intros H. specialize (H 2%N [B"k"] c21_owner_witness ltac:(vm_compute; reflexivity)).
+  apply (f_equal (fun i => read_inner [B"k"] [B"b"] i (RGet B"b" B"k"))) in H. vm_compute in H. discriminate H.
+Qed.
+Print Assumptions C21_fifo_across_owners_full_refuted.
+
+(* FIFO across owners under the lease assumption [m_orderly] (decidable on the trace): no claim takes
+   an entry away from a live owner that still holds it (leases do not expire during a replay), and no
+   owner dies between its replay and its finalize (replays are not idempotent).  Claims only ever
+   take the HEAD of the queue, so while owner A holds entry n nobody replays entry n+1. *)
+Theorem C21_fifo_across_owners : forall lease UK tr,
+  m_orderly lease UK minit (m_trace_workers tr) tr = true ->
+  m_queue (fst (run_m lease UK minit tr)) = [] ->
+  m_inner (fst (run_m lease UK minit tr)) = apps UK init_inner (m_accepted lease UK minit tr).
+Proof. exact fifo_across_owners. Qed.
+Print Assumptions C21_fifo_across_owners.
+
+Theorem C21_one_owner_orderly : forall lease UK w tr,
+  (forall x, In x (m_trace_workers tr) -> x = w) -> Forall no_crash tr ->
+  m_orderly lease UK minit (m_trace_workers tr) tr = true.
+Proof. intros lease UK w tr H NC. exact (one_owner_orderly lease UK w _ tr H (incl_refl _) NC minit). Qed.
+Print Assumptions C21_one_owner_orderly.
+
+(* non-vacuity: two owners alternating and a takeover of a DEAD owner's claim are orderly *)
+Definition c21_owner_ok : list mstep :=
+  [MCall (CCreate B"b"); MClaim 0; MReplay 0; MFinalize 0; MCall (ex_p 1); MCall (ex_p 2);
+   MClaim 0; MClaim 1; MCrash 0; MTick 2; MClaim 1; MReplay 1; MFinalize 1; MClaim 0; MReplay 0; MFinalize 0].
+Example C21_ex_owners_ok :
+  m_orderly 2 [B"k"] minit (m_trace_workers c21_owner_ok) c21_owner_ok = true /\
+  m_queue (fst (run_m 2 [B"k"] minit c21_owner_ok)) = [] /\
+  m_orderly 2 [B"k"] minit (m_trace_workers c21_owner_witness) c21_owner_witness = false.
+Proof. vm_compute. repeat split; reflexivity. Qed.
+
 (* non-vacuity: a history with a queued put carrying options, a blocked read, worker steps, a join *)
 Definition ex_o : popts := {| o_tags := [(B"t", B"1")]; o_meta := Some {| m_sys := [Some B"max-age=1"]; m_user := [(B"u", B"v")] |};
                               o_class := Some B"STANDARD_IA"; o_ifnone := false; o_ifmatch := None |}.
@@ -125,7 +177,6 @@ Definition ex_ops : list op :=
   [OCall (CCreate B"b"); OCall (CPut B"b" B"k" 7 (Some B"text/plain") ex_o); ORead (RGet B"b" B"k"); OWork; OWork].
 (* an acknowledged, not yet replayed put on k followed by CompleteMultipartUpload If-None-Match:* on k:
    the complete blocks, and after the replay it fails as on a plain storage *)
-Definition ex_o0 : popts := {| o_tags := []; o_meta := None; o_class := None; o_ifnone := false; o_ifmatch := None |}.
 Definition ex_mp : list op :=
   [OCall (CCreate B"b"); OWork; OCall (CMpCreate B"b" B"k" 1 None ex_o0); OCall (CMpPart B"b" B"k" 1 1 5);
    OCall (CPut B"b" B"k" 7 None ex_o0); OCall (CMpComplete B"b" B"k" 1 true None); OWork; OJoin].
